@@ -1,6 +1,8 @@
 package main
 
 import (
+	"go/types"
+	"go/token"
 	"fmt"
 	"os"
 	"path/filepath"
@@ -132,5 +134,180 @@ func (w *World) LoadAllSpecs(specDir string) error {
 			}
 		}
 	}
-	return w.ResolveSpecs()
+	if err := w.ResolveSpecs(); err != nil {
+		return err
+	}
+	return w.registerFunctional()
+}
+
+// registerFunctional handles the `functional <name>` directive: checks that the function's result is a function of
+// its (value-typed) arguments and registers <name> as an uninterpreted specification function with its signature.
+func (w *World) registerFunctional() error {
+	for _, fn := range w.FuncList {
+		sp := w.specFor(fn)
+		if sp == nil || sp.Functional == "" {
+			continue
+		}
+		if why := notFunctional(fn); why != "" {
+			return fmt.Errorf("%s: `functional %s` rejected: %s", shortFuncName(fn), sp.Functional, why)
+		}
+		sig := fn.Signature
+		fd := &FunDef{Name: sp.Functional, PkgPath: sp.PkgPath, File: sp.File, Ret: &TypeExpr{Kind: "resolved", Go: sig.Results().At(0).Type()}}
+		for i := 0; i < sig.Params().Len(); i++ {
+			fd.Params = append(fd.Params, Binder{Name: sig.Params().At(i).Name(), Type: &TypeExpr{Kind: "resolved", Go: sig.Params().At(i).Type()}})
+		}
+		if _, dup := w.Specs.Funs[fd.Name]; dup {
+			return fmt.Errorf("functional %s: name already defined", fd.Name)
+		}
+		w.Specs.Funs[fd.Name] = fd
+	}
+	return nil
+}
+
+// valueType: no pointer, map, interface, channel or function anywhere inside t.
+func valueType(t types.Type, depth int) bool {
+	if depth > 8 {
+		return false
+	}
+	switch u := types.Unalias(t).Underlying().(type) {
+	case *types.Basic:
+		return u.Kind() != types.UnsafePointer
+	case *types.Slice:
+		return valueType(u.Elem(), depth+1)
+	case *types.Array:
+		return valueType(u.Elem(), depth+1)
+	case *types.Struct:
+		for i := 0; i < u.NumFields(); i++ {
+			if !valueType(u.Field(i).Type(), depth+1) {
+				return false
+			}
+		}
+		return true
+	}
+	return false
+}
+
+// notFunctional returns "" if fn's single result is determined by its arguments: value-typed signature, no receiver,
+// no access to the heap or to package state, no map iteration, no calls other than the value builtins.
+func notFunctional(fn *ssa.Function) string {
+	sig := fn.Signature
+	if sig.Recv() != nil || sig.Results().Len() != 1 || len(fn.FreeVars) > 0 {
+		return "needs a plain function with one result"
+	}
+	// (references inside the arguments are harmless: the checks below forbid every load through them)
+	for _, b := range fn.Blocks {
+		for _, in := range b.Instrs {
+			switch in := in.(type) {
+			case *ssa.Alloc:
+				if in.Heap && !usedAsVariableOnly(in, 0) {
+					return "heap allocation that escapes"
+				}
+			case *ssa.Store:
+				if rootVariable(in.Addr) == nil {
+					return "store outside local variables"
+				}
+			case *ssa.UnOp:
+				if in.Op == token.MUL && rootVariable(in.X) == nil {
+					return "load outside local variables"
+				}
+				if in.Op == token.ARROW {
+					return "channel receive"
+				}
+			case *ssa.Call:
+				bi, ok := in.Common().Value.(*ssa.Builtin)
+				if !ok {
+					if in.Common().Value.Name() == "ssa:deferstack" {
+						continue
+					}
+					return "call of " + in.Common().Value.Name()
+				}
+				switch bi.Name() {
+				case "append", "len", "cap", "min", "max", "ssa:wrapnilchk", "ssa:deferstack":
+				default:
+					return "builtin " + bi.Name()
+				}
+			case *ssa.MapUpdate, *ssa.MakeMap, *ssa.MakeChan, *ssa.MakeClosure, *ssa.MakeInterface, *ssa.Go, *ssa.Defer, *ssa.Send, *ssa.Select, *ssa.TypeAssert, *ssa.Panic:
+				return fmt.Sprintf("%T", in)
+			case *ssa.Range:
+				return "range over a map or string"
+			case *ssa.Lookup:
+				if _, isMap := in.X.Type().Underlying().(*types.Map); isMap {
+					return "map lookup"
+				}
+			}
+			for _, op := range in.Operands(nil) {
+				if op != nil && *op != nil {
+					if _, isG := (*op).(*ssa.Global); isG {
+						return "package-level variable"
+					}
+				}
+			}
+		}
+	}
+	return ""
+}
+
+// usedAsVariableOnly: the address v is only loaded from, stored to, or refined to a field / element address that is
+// used the same way - it never flows anywhere as a value.
+func usedAsVariableOnly(v ssa.Value, depth int) bool {
+	if depth > 6 || v.Referrers() == nil {
+		return false
+	}
+	for _, ref := range *v.Referrers() {
+		switch r := ref.(type) {
+		case *ssa.Store:
+			if r.Val == v {
+				return false
+			}
+		case *ssa.UnOp:
+			if r.Op != token.MUL {
+				return false
+			}
+		case *ssa.FieldAddr:
+			if !usedAsVariableOnly(r, depth+1) {
+				return false
+			}
+		case *ssa.IndexAddr:
+			if r.X != v || !usedAsVariableOnly(r, depth+1) {
+				return false
+			}
+		case *ssa.Slice:
+			// the backing array of a fresh slice (make with constant size, variadic arguments): slices are values (A-append)
+			if _, isArr := v.Type().Underlying().(*types.Pointer).Elem().Underlying().(*types.Array); !isArr || r.X != v {
+				return false
+			}
+		case *ssa.DebugRef:
+		default:
+			return false
+		}
+	}
+	return true
+}
+
+// rootVariable is rootLocal extended to heap-flagged allocs that are used as plain variables.
+func rootVariable(addr ssa.Value) *ssa.Alloc {
+	if a := rootLocal(addr); a != nil {
+		return a
+	}
+	for {
+		switch a := addr.(type) {
+		case *ssa.Alloc:
+			if usedAsVariableOnly(a, 0) {
+				return a
+			}
+			return nil
+		case *ssa.FieldAddr:
+			addr = a.X
+		case *ssa.IndexAddr:
+			if _, isPtr := a.X.Type().Underlying().(*types.Pointer); isPtr {
+				addr = a.X
+			} else if u, ok := a.X.(*ssa.UnOp); ok && u.Op == token.MUL {
+				addr = u.X
+			} else {
+				return nil
+			}
+		default:
+			return nil
+		}
+	}
 }
